@@ -191,8 +191,21 @@ def random_spec(rnd, info) -> Dict[str, Any]:  # noqa: ANN001
                                                   "Memcpy PtoP (nowhere)"])}
 
 
+def fixed_cases(tier: str):
+    return [{"kind": "repo_tests", "file": "test_trace_filter.py"}] if tier == "thorough" else []
+
+
+STABLE_FILTER_TESTS = ["testCPUOperatorFilter", "testCompositeFilter", "testFirstIterationFilter", "testGPUKernelFilter", "testIterationFilter",
+                       "testIterationIndexFilter", "testNameFilter", "testRankFilter", "testTimeRangeFilter"]
+
+
 def run_case(case: Dict[str, Any], ctx: Any) -> core.CaseResult:
     res = core.CaseResult()
+    if case.get("kind") == "repo_tests":
+        from hv.mon import repotests
+        res.key = "repo_tests:" + case["file"]
+        repotests.run(case["file"], res, ctx, STABLE_FILTER_TESTS)
+        return res
     for fn, tr in case["files"].items():
         m = raw.model(tr["traceEvents"])
         why = wf.well_formed(m, tr["traceEvents"])
